@@ -76,6 +76,10 @@ func formatFSM(format string, a []cty.Value) (string, error) {
 	}
 	action argidx_num {
 		verb.ArgNum = (10 * verb.ArgNum) + (int(fc) - '0')
+		if verb.ArgNum > formatMaxArgNum {
+			// Saturate rather than overflowing; no argument list is this long.
+			verb.ArgNum = formatMaxArgNum
+		}
 	}
 
 	action has_width {
